@@ -19,6 +19,18 @@ struct M_ : state_machine_def<M_> {
   template<class F,class Ev> void no_transition(Ev const&,F&,int){ g_log += "NT "; }
 };
 typedef BE<M_> M;
+// deferred events pending when the blocking state becomes active (C11 quantifier): W defers e1; kill -> Dead leaves W (single region), so
+// the deferred e1 is re-offered in a terminated machine: nothing may run.  Dead has an outgoing row that must never be taken.
+struct D_ : state_machine_def<D_> {
+  struct W : state<> { typedef mpl::vector<e1> deferred_events; }; struct V : state<> {};
+  struct Dead : terminate_state<> {};
+  struct Int : interrupt_state<resume> {};
+  typedef W initial_state;
+  struct transition_table : mpl::vector<
+    Row<W,kill,Dead,Lg<'k'>,none>, Row<W,intr,Int,Lg<'i'>,none>, Row<Dead,e1,V,Lg<'X'>,none>, Row<Int,e1,V,Lg<'Y'>,none>, Row<Int,resume,V,Lg<'r'>,none>, Row<V,e1,none,Lg<'h'>,none> > {};
+  template<class F,class Ev> void no_transition(Ev const&,F&,int){ g_log += "NT "; }
+};
+typedef BE<D_> D;
 // three regions, two states each; A1/B1/C1 carry Hot, A0/B0/C0 carry Idle
 struct F3_ : state_machine_def<F3_> {
   struct A0 : state<> { typedef mpl::vector<Idle> flag_list; }; struct A1 : state<> { typedef mpl::vector<Hot> flag_list; };
@@ -45,6 +57,12 @@ int main(int argc, char** argv) {
     m.process_event(resume()); bool resumed = g_log == "r ";
     g_log.clear(); m.process_event(go());                       // the event sent during the interruption is NOT replayed; this new one is handled
     report("interrupt.blocks-until-end-event", blocked && resumed && g_log == "g ", "C11,C13", "log=[" + g_log + "]"); }
+  { D m; m.start(); m.process_event(e1(1)); g_log.clear(); m.process_event(kill()); int s = cur(m,0);
+    m.process_event(go());
+    report("terminate.pending-deferred-event-not-dispatched", g_log == "k " && cur(m,0) == s, "C11,C05", "log=[" + g_log + "]"); }
+  { D m; m.start(); m.process_event(e1(1)); g_log.clear(); m.process_event(intr()); int s = cur(m,0);
+    m.process_event(go());
+    report("interrupt.pending-deferred-event-not-dispatched", g_log == "i " && cur(m,0) == s, "C11,C05", "log=[" + g_log + "]"); }
   // flags as a function of the configuration: all 8 configurations, reached along two different paths
   for (int cfg = 0; cfg < 8; ++cfg) for (int path = 0; path < 2; ++path) {
     F3 m; m.start();
